@@ -12,11 +12,13 @@ PLAN = dict(
     floor=dict(quick=50, thorough=300),
     tiers=dict(
         quick=[det("rel", H, "cs-rel", 16, 40, 4, tso=True, time_cap=30),
-               det("dbg", H, "cs-dbg", 16, 12, 4, tso=True, time_cap=25)],
+               det("dbg", H, "cs-dbg", 16, 12, 4, tso=True, time_cap=25),
+               tsan("C01", 4, 80)],
         thorough=[det("rel", H, "cs-rel", 16, 1200, 5, tso=True, time_cap=300),
                   det("dbg", H, "cs-dbg", 16, 300, 5, tso=True, time_cap=200),
                   det("enum-wake", H, "cs-rel", 16, 40, 2, tso=True, time_cap=120, enum="wake", enum_cap=150),
-                  det("enum-sbload", H, "cs-rel", 16, 40, 2, tso=True, time_cap=120, enum="sbload", enum_cap=150)],
+                  det("enum-sbload", H, "cs-rel", 16, 40, 2, tso=True, time_cap=120, enum="sbload", enum_cap=150),
+               tsan("C01", 16, 600)],
     ),
 )
 TEXT = dict(
